@@ -1,3 +1,54 @@
-(* C34/Proofs.v — lemmas (extended below). *)
+(* C34/Proofs.v — small lemmas: boolean equality of results. *)
 From Coq Require Import List NArith Bool Arith Lia.
 From C34 Require Import Model.
+Import ListNotations.
+Local Open Scope N_scope.
+
+Lemma pairs_eqb_spec a : forall b, pairs_eqb a b = true <-> a = b.
+Proof.
+  induction a as [|[k v] a IH]; intros [|[k' v'] b]; simpl; split; intros H; try discriminate; try reflexivity.
+  - apply andb_true_iff in H. destruct H as [H H3]. apply andb_true_iff in H. destruct H as [H1 H2].
+    apply N.eqb_eq in H1, H2. apply IH in H3. subst. reflexivity.
+  - inversion H; subst. rewrite !N.eqb_refl. simpl. apply IH. reflexivity.
+Qed.
+
+Lemma res_eqb_spec a b : res_eqb a b = true <-> a = b.
+Proof.
+  destruct a, b; simpl; split; intros H; try discriminate; try reflexivity.
+  - apply andb_true_iff in H. destruct H as [H1 H2]. apply N.eqb_eq in H1, H2. subst. reflexivity.
+  - inversion H. rewrite !N.eqb_refl. reflexivity.
+  - apply Bool.eqb_prop in H. subst. reflexivity.
+  - inversion H. apply Bool.eqb_reflx.
+  - apply N.eqb_eq in H. subst. reflexivity.
+  - inversion H. apply N.eqb_refl.
+  - apply pairs_eqb_spec in H. subst. reflexivity.
+  - inversion H. apply pairs_eqb_spec. reflexivity.
+Qed.
+
+(* ---- what the specification says: Pop/Peek take the first element of maximal priority ---- *)
+Lemma qbest_spec l i p : qbest l = Some (i, p) ->
+  exists l1 l2, l = l1 ++ (i, p) :: l2 /\
+                (forall j q, In (j, q) l1 -> q < p) /\ (forall j q, In (j, q) l2 -> q <= p).
+Proof.
+  revert i p. induction l as [|[i0 p0] l IH]; simpl; intros i p H; [discriminate|].
+  destruct (qbest l) as [[j q]|] eqn:Eb.
+  - destruct (p0 <? q) eqn:E.
+    + inversion H; subst. destruct (IH _ _ eq_refl) as [l1 [l2 [-> [H1 H2]]]].
+      exists ((i0, p0) :: l1), l2. split; [reflexivity|]. split; [|exact H2].
+      intros j' q' [Hin|Hin]; [inversion Hin; subst; apply N.ltb_lt; exact E|eapply H1; exact Hin].
+    + inversion H; subst. exists [], l. split; [reflexivity|]. split; [intros j' q' []|].
+      destruct (IH _ _ eq_refl) as [l1 [l2 [-> [H1 H2]]]]. apply N.ltb_ge in E.
+      intros j' q' Hin. apply in_app_iff in Hin. destruct Hin as [Hin|[Hin|Hin]].
+      * specialize (H1 _ _ Hin). lia.
+      * inversion Hin; subst. exact E.
+      * specialize (H2 _ _ Hin). lia.
+  - inversion H; subst. exists [], l. split; [reflexivity|]. split; [intros j' q' []|].
+    destruct l as [|[j q] l]; [intros j' q' []|]. simpl in Eb.
+    destruct (qbest l) as [[? ?]|]; [destruct (q <? n0)|]; discriminate.
+Qed.
+
+Lemma qbest_none l : qbest l = None -> l = [].
+Proof.
+  destruct l as [|[i p] l]; [reflexivity|]. simpl.
+  destruct (qbest l) as [[j q]|]; [destruct (p <? q)|]; discriminate.
+Qed.
